@@ -164,7 +164,7 @@ def compile_run(src, gecs_rlib, deps, name, run=True, extra_cfg=()):
     with open(path, "w") as f:
         f.write(src)
     binp = os.path.join(d, name + ".bin")
-    cmd = ["rustc", "--edition", "2021", "-L", "dependency=" + deps, "--extern", "gecs=" + gecs_rlib, path, "-o", binp, "--cap-lints", "allow"]
+    cmd = ["rustc", "--edition", "2021", "-L", "dependency=" + deps, "--extern", "gecs=" + gecs_rlib, path, "-o", binp]
     for c in extra_cfg:
         cmd += ["--cfg", c]
     if not run:
@@ -767,4 +767,125 @@ def cfgq_enum(tier, seed):
            "violations": violations[:60], "n_violations": len(violations), "known": known[:3], "n_known": len(known),
            "samples": samples, "wall_s": round(time.time() - t0, 1), "cached": False}
     cache_put("cfgq", key, res)
+    return res
+
+
+# ============================================================================ client corpus (C18)
+
+CLIENT_PRELUDE = """#![forbid(unsafe_code)]
+#![allow(warnings)]
+use gecs::prelude::*;
+#[derive(Clone)] pub struct Ca(pub u32);
+#[derive(Clone)] pub struct Cb(pub u32);
+ecs_world! { ecs_archetype!(Aa, Ca, Cb); ecs_archetype!(Ab, Cb); }
+"""
+HOLDER = {  # name: (acquire, use, release)
+    "view": ("let h = world.view(e).unwrap();", "let _x = h.ca.0;", "drop(h);"),
+    "viewcomp": ("let mut v = world.view(e).unwrap(); let h = v.component_mut::<Ca>();", "h.0 += 1;", "drop(v);"),
+    "borrow": ("let h = world.borrow(e).unwrap();", "let _x = h.component::<Ca>().0;", "drop(h);"),
+    "refc": ("let b = world.borrow(e).unwrap(); let h = b.component::<Ca>();", "let _x = h.0;", "drop(h); drop(b);"),
+    "refmut": ("let b = world.borrow(e).unwrap(); let mut h = b.component_mut::<Ca>();", "h.0 += 1;", "drop(h); drop(b);"),
+    "iteritem": ("let mut it = world.aa.iter(); let h = it.next().unwrap();", "let _x = (h.1).0;", "drop(it);"),
+    "itermut": ("let mut it = world.aa.iter_mut(); let h = it.next().unwrap();", "(h.1).0 += 1;", "drop(it);"),
+    "slice": ("let h = world.aa.get_slice::<Ca>();", "let _x = h[0].0;", ""),
+    "slicemut": ("let h = world.aa.get_slice_mut::<Ca>();", "h[0].0 += 1;", ""),
+    "slices": ("let h = world.aa.get_all_slices_mut();", "let _x = h.ca[0].0;", "drop(h);"),
+    "entities": ("let h = world.aa.entities();", "let _x = h.len();", ""),
+    "bslice": ("let h = world.aa.borrow_slice::<Ca>();", "let _x = h[0].0;", "drop(h);"),
+    "archref": ("let h = world.archetype::<Aa>();", "let _x = h.len();", ""),
+    "archmut": ("let h = world.archetype_mut::<Aa>();", "let _x = h.len();", ""),
+}
+INTRUDER = {
+    "create": "world.create::<Aa>((Ca(3), Cb(4)));",
+    "createwc": "let _r = world.create_within_capacity::<Aa>((Ca(3), Cb(4)));",
+    "destroy": "world.destroy(e2);",
+    "destroyany": "world.destroy(e2.into_any());",
+    "view2": "let _v = world.view(e2).map(|v| v.ca.0);",
+    "iterq": "ecs_iter!(world, |c: &mut Ca| { c.0 += 1; });",
+    "iterdq": "ecs_iter_destroy!(world, |c: &Cb| { if c.0 == 77 { EcsStepDestroy::ContinueDestroy } else { EcsStepDestroy::Continue } });",
+    "clone": "let _c = world.clone();",
+    "contains": "let _b = world.contains(e2);",
+    "len": "let _n = world.aa.len();",
+    "iterbq": "ecs_iter_borrow!(world, |c: &Cb| { let _ = c.0; });",
+}
+
+def client_src(p):
+    acq, use, rel = HOLDER[p["h"]]
+    intr = INTRUDER[p["i"]]
+    body = [acq, intr, use, rel] if p["order"] == "overlap" else [acq, use, rel, intr]
+    return CLIENT_PRELUDE + "fn main() {\n    let mut world = EcsWorld::new();\n    let e = world.create::<Aa>((Ca(1), Cb(2)));\n    let e2 = world.create::<Aa>((Ca(5), Cb(6)));\n    " + "\n    ".join(x for x in body if x) + "\n}\n"
+
+# hand-written corpus of minimal unsound programs, each with a sound twin: (name, forbidden body, twin body, error classes)
+SPECIAL_PRELUDE = CLIENT_PRELUDE + "pub struct NotSend(pub std::rc::Rc<u32>);\nmod w2 { use super::*; ecs_world! { ecs_name!(RcWorld); ecs_archetype!(Ar, NotSend); } }\nfn assert_send<T: Send>() {}\nfn assert_sync<T: Sync>() {}\nfn assert_copy<T: Copy>() {}\n"
+SPECIALS = [
+ ("create_inside_iter", "ecs_iter!(world, |c: &Ca| { world.create::<Aa>((Ca(c.0), Cb(0))); });", "let mut n = 0; ecs_iter!(world, |c: &Ca| { n += c.0; }); world.create::<Aa>((Ca(n), Cb(0)));", ["E0499", "E0502", "E0500"]),
+ ("destroy_inside_iter_borrow", "ecs_iter_borrow!(world, |e: &Entity<Aa>| { world.destroy(*e); });", "let mut v = Vec::new(); ecs_iter_borrow!(world, |e: &Entity<Aa>| { v.push(*e); }); for e in v { world.destroy(e); }", ["E0502", "E0500", "E0596"]),
+ ("two_mut_same_component", "ecs_iter!(world, |a: &mut Ca, b: &mut Ca| { a.0 += b.0; });", "ecs_iter!(world, |a: &mut Ca, b: &mut Cb| { a.0 += b.0; });", ["E0499"]),
+ ("mut_and_shared_same_component", "ecs_find!(world, e, |a: &mut Ca, b: &Ca| { a.0 += b.0; });", "ecs_find!(world, e, |a: &mut Ca, b: &Cb| { a.0 += b.0; });", ["E0502", "E0499"]),
+ ("mut_entity_param", "ecs_iter!(world, |e: &mut Entity<Aa>| { });", "ecs_iter!(world, |e: &Entity<Aa>| { });", ["mut entity access is forbidden"]),
+ ("mut_entity_any_param", "ecs_find_borrow!(world, e, |x: &mut EntityAny| { });", "ecs_find_borrow!(world, e, |x: &EntityAny| { });", ["mut entity access is forbidden"]),
+ ("smuggle_component_ref", "let mut keep: Option<&Ca> = None; ecs_iter!(world, |c: &Ca| { keep = Some(c); }); world.create::<Aa>((Ca(9), Cb(9))); let _x = keep.unwrap().0;", "let mut keep: Option<u32> = None; ecs_iter!(world, |c: &Ca| { keep = Some(c.0); }); world.create::<Aa>((Ca(9), Cb(9))); let _x = keep.unwrap();", ["E0521", "E0499", "E0502", "E0597", "E0506"]),
+ ("smuggle_find_ref", "let r: &Ca = ecs_find!(world, e, |c: &Ca| -> &Ca { c }).unwrap(); world.destroy(e); let _x = r.0;", "let r: u32 = ecs_find!(world, e, |c: &Ca| -> u32 { c.0 }).unwrap(); world.destroy(e); let _x = r;", ["E0521", "E0499", "E0502", "E0597", "E0506", "lifetime may not live long enough", "E0106"]),
+ ("world_shared_across_threads", "std::thread::scope(|s| { s.spawn(|| { let _n = world.aa.len(); }); });", "std::thread::scope(|s| { s.spawn(move || { let w = world; let _n = w.aa.len(); }); });", ["E0277"]),
+ ("world_is_sync", "assert_sync::<EcsWorld>();", "assert_send::<EcsWorld>();", ["E0277"]),
+ ("archetype_is_sync", "assert_sync::<Aa>();", "assert_send::<Aa>();", ["E0277"]),
+ ("rc_world_is_send", "assert_send::<w2::RcWorld>();", "assert_send::<EcsWorld>();", ["E0277"]),
+ ("rc_world_moved_to_thread", "let w = w2::RcWorld::new(); std::thread::spawn(move || { let _w = w; });", "let w = EcsWorld::new(); std::thread::spawn(move || { let _w = w; });", ["E0277"]),
+ ("view_outlives_world", "let v = { let mut w = EcsWorld::new(); let e = w.create::<Aa>((Ca(1), Cb(2))); w.view(e).unwrap() }; let _x = v.ca.0;", "let mut w = EcsWorld::new(); let e = w.create::<Aa>((Ca(1), Cb(2))); let v = w.view(e).unwrap(); let _x = v.ca.0;", ["E0597", "E0515", "E0505"]),
+ ("slice_outlives_world", "let s = { let mut w = EcsWorld::new(); w.create::<Aa>((Ca(1), Cb(2))); w.aa.get_slice::<Ca>() }; let _x = s.len();", "let mut w = EcsWorld::new(); w.create::<Aa>((Ca(1), Cb(2))); let s = w.aa.get_slice::<Ca>(); let _x = s.len();", ["E0597", "E0515", "E0505", "E0716"]),
+ ("iter_outlives_world", "let it = { let mut w = EcsWorld::new(); w.create::<Aa>((Ca(1), Cb(2))); w.aa.iter().next().map(|x| x.1) }; let _x = it.map(|c| c.0);", "let mut w = EcsWorld::new(); w.create::<Aa>((Ca(1), Cb(2))); let it = w.aa.iter().next().map(|x| x.1); let _x = it.map(|c| c.0);", ["E0597", "E0515", "E0505", "E0716"]),
+ ("unsafe_in_client_closure", "ecs_iter!(world, |c: &Ca| { let p = c as *const Ca; let _x = unsafe { (*p).0 }; });", "ecs_iter!(world, |c: &Ca| { let _x = c.0; });", ["unsafe_code", "usage of an `unsafe` block"]),
+ ("iter_borrow_while_mut_view", "let v = world.view(e).unwrap(); ecs_iter_borrow!(world, |c: &Cb| { let _ = c.0; }); let _x = v.ca.0;", "let v = world.view(e).unwrap(); let _x = v.ca.0; ecs_iter_borrow!(world, |c: &Cb| { let _ = c.0; });", ["E0502"]),
+ ("wrong_archetype_typed_key", "let e3 = world.create::<Ab>((Cb(1),)); let _v = world.view::<Aa, _>(e3);", "let e3 = world.create::<Aa>((Ca(1), Cb(1))); let _v = world.view::<Aa, _>(e3);", ["E0277", "E0308", "E0271"]),
+]
+POSITIVES = [  # must compile: handles are Copy + Send + Sync whatever the component types are
+ ("handles_autotraits", "assert_send::<Entity<w2::Ar>>(); assert_sync::<Entity<w2::Ar>>(); assert_copy::<Entity<w2::Ar>>(); assert_send::<EntityDirect<w2::Ar>>(); assert_sync::<EntityDirect<w2::Ar>>(); assert_copy::<EntityDirect<w2::Ar>>(); assert_send::<EntityAny>(); assert_sync::<EntityAny>(); assert_copy::<EntityAny>(); assert_send::<EntityDirectAny>(); assert_sync::<EntityDirectAny>(); assert_copy::<EntityDirectAny>();"),
+ ("world_send_when_components_send", "assert_send::<EcsWorld>(); assert_send::<Aa>(); let w = EcsWorld::new(); std::thread::spawn(move || { let _w = w; }).join().unwrap();"),
+ ("cross_archetype_nested_mutability", "ecs_iter_borrow!(world, |a: &mut Ca| { a.0 += 1; ecs_iter_borrow!(world, |e: &Entity<Ab>, b: &mut Cb| { b.0 += 1; }); });"),
+]
+
+def special_src(body):
+    return SPECIAL_PRELUDE + "fn main() {\n    let mut world = EcsWorld::new();\n    let e = world.create::<Aa>((Ca(1), Cb(2)));\n    let e2 = world.create::<Aa>((Ca(5), Cb(6)));\n    " + body + "\n}\n"
+
+def client_corpus(tier, seed):
+    key = key_of("client", repo_hash(), verif_hash(), tier)
+    c = cache_get("client", key)
+    if c:
+        c["cached"] = True
+        return c
+    t0 = time.time()
+    rlib, deps = build_gecs((), False)
+    items, st = tlc_lines("ClientMC", "SPECIFICATION Spec\nINVARIANTS TwinCompiles Export\nCHECK_DEADLOCK FALSE\n", "CLIENT", workers=1)
+    violations = []
+    jobs = []
+    for p in items:
+        jobs.append(("pair", p, client_src(p), p["compiles"], [p["err"]] if p["err"] else []))
+    for name, bad, twin, errs in SPECIALS:
+        jobs.append(("special", {"name": name, "role": "forbidden"}, special_src(bad), False, errs))
+        jobs.append(("special", {"name": name, "role": "twin"}, special_src(twin), True, []))
+    for name, body in POSITIVES:
+        jobs.append(("positive", {"name": name}, special_src(body), True, []))
+    counts = {"forbidden": 0, "allowed": 0}
+    def run(job):
+        kind, desc, src, compiles, errs = job
+        r = compile_run(src, rlib, deps, "cl_%s" % key_of(src)[:14], run=False)
+        ok = r["rc"] == 0
+        if compiles and not ok:
+            return [{"tags": ["C18"], "what": "a sound client program is rejected: " + r["stderr"][-500:], "at": 0, "event": desc, "origin": {"engine": "client"}}]
+        if not compiles and ok:
+            return [{"tags": ["C18"], "what": "an unsound client program compiles", "at": 0, "event": dict(desc, src=src[-600:]), "origin": {"engine": "client"}}]
+        if not compiles and errs and not any(e in r["stderr"] for e in errs):
+            return [{"tags": ["C18"], "what": "unsound client rejected for an unexpected reason (expected %s): %s" % (errs, r["stderr"][-400:]), "at": 0, "event": desc, "origin": {"engine": "client"}}]
+        return []
+    with ThreadPoolExecutor(max_workers=14) as ex:
+        for job, res in zip(jobs, ex.map(run, jobs)):
+            counts["allowed" if job[3] else "forbidden"] += 1
+            violations += res
+    samples = [{"holder": p["h"], "intruder": p["i"], "order": p["order"], "compiles": p["compiles"], "err": p["err"]} for p in items[3::101][:3]]
+    res = {"engine": "client", "tier": tier, "programs": len(jobs), "forbidden": counts["forbidden"], "allowed": counts["allowed"],
+           "pairs_from_model": len(items), "special_pairs": len(SPECIALS), "positives": len(POSITIVES), "traces": len(jobs),
+           "tlc_states": st.get("distinct", 0), "tlc_transitions": st.get("generated", 0),
+           "violations": violations[:60], "n_violations": len(violations), "samples": samples,
+           "wall_s": round(time.time() - t0, 1), "cached": False}
+    cache_put("client", key, res)
     return res
